@@ -36,6 +36,15 @@ def main(argv=None):
         return 2
     except Exception:
         traceback.print_exc()
+        if ctx.violations and not a.replay:
+            # violations already reported by a monitor on executions of the real code stand; a later stage of the check
+            # (conformance, spec-generated schedules) broke down on this tree
+            print("NOTE %s: a later stage of the check failed after %d violation(s) had been reported" % (prop, len(ctx.violations)))
+            ctx.finish("model_checking", {"states": 0, "transitions": 0, "traces_validated_against_impl": 0, "exhaustive": False,
+                                          "samples": [d for d, _ in ctx.violations[:3]],
+                                          "rule": "run aborted by an internal error after violations had been found"})
+            print("%s tier=%s seed=%d: VIOLATIONS=%d (aborted)" % (prop, a.tier, a.seed, len(ctx.violations)))
+            return 1
         print("MACHINERY-FAILURE %s: unexpected exception in the check" % prop)
         return 2
 
